@@ -347,7 +347,8 @@ def run_chain(fault_idx: int, kind: int, mode: int, opt: int, access: int, xsel:
     settings = TestCaseExecutionSettings(case_dir / 'the.case', case_dir, _option(opt), None, resolver)
     env, out, err = _environment()
     cwd = os.getcwd()
-    rc = proc.process(env, settings)
+    with ob.untraced():   # kind, mode, opt, access and the exit code are concrete by now
+        rc = proc.process(env, settings)
     os.chdir(cwd)
     kept = [os.path.isdir(r) and len(os.listdir(r)) > 0 for r in roots]
     xh._make_writable(work)
@@ -533,7 +534,8 @@ def k4_invalid_usage(i: int) -> bool:
     cwd = os.getcwd()
     os.chdir(work)
     try:
-        rc = mp.execute(argv, StdOutputFiles(out, err))
+        with ob.untraced():   # the selector is concrete by now
+            rc = mp.execute(argv, StdOutputFiles(out, err))
     finally:
         os.chdir(cwd)
         scratch.remove(work)
@@ -609,7 +611,8 @@ def k6_prevented(i: int, opt: int, explicit: bool) -> bool:
     cwd = os.getcwd()
     os.chdir(d)
     try:
-        rc = _main_program().execute(argv, StdOutputFiles(out, err))
+        with ob.untraced():   # every selector is concrete by now
+            rc = _main_program().execute(argv, StdOutputFiles(out, err))
     finally:
         os.chdir(cwd)
     scratch.remove(work)
